@@ -1266,7 +1266,8 @@ class BuilderSim:
         ch = self.ctx.ch
         t = T()
         # a sum-typed wire: existing or synthesised
-        sums = [w for w in a.pool if isinstance(w.ty, t.tys.Sum) and len(w.ty.variant_rows) >= 1 and not (w.lin and w.used)]
+        sums = [w for w in a.pool if isinstance(w.ty, t.tys.Sum) and len(w.ty.variant_rows) >= 1 and not (w.lin and w.used)
+                and not w.var]  # (never a wire reserved for a required output)
         if sums and ch.coin(2, 3, "cond-existing-sum"):
             sw = ch.pick(sums, "cond-sum")
         else:
